@@ -1,5 +1,6 @@
 """Unit tables: which contracts/harnesses decide which property.  Declarative; no logic."""
 
+B = "BOUNDED STAND-IN, native run: 19 shipped templates (all but the two ACO ones) x 3 seeds x 15 iterations on small recording problems; "
 PROPS = {
     "C05": dict(
         level="other",
@@ -10,6 +11,9 @@ PROPS = {
                     expect=["Individual<P>::solution_mut", "Individual<P>::evaluate_with", "Individual<P>::set_objective",
                             "<Individual<P> as Clone>::clone"])],
         kani=[dict(files=["contracts/C05/c05.rs"])],
+        native=[dict(files=["contracts/C07/whole_run_native.rs"],
+                     harnesses={"c05_native_whole_runs": dict(anchor="whole runs of the shipped templates (final state)",
+                                bound=B + "every evaluated individual on the final population stack and the best-so-far carry f(solution)")})],
         min_obligations={"quick": 16, "thorough": 16},
         uncovered=["'after every component execution of every shipped heuristic' (whole runs) is not decided by per-function contracts"],
         assumptions=["Clone/PartialEq of the encoding and objective types behave as vstd's `cloned` / spec eq",
@@ -86,7 +90,10 @@ PROPS["C07"] = dict(
                 expect=["impl<P> Component<P> for ElitistArchiveIntoPopulation::execute"]),
            dict(name="archive_update", template="contracts/C07/archive_update.vrs", expect=["ElitistArchive<P>::update", "ElitistArchive<P>::new", "ElitistArchive<P>::elitists"])],
     kani=[dict(files=["contracts/C07/c07.rs"], inject=[dict(file="contracts/C07/c07_archive.rs", into="src/components/archive.rs")])],
-    native=[dict(files=[], inject=[dict(file="contracts/C07/c07_archive_native.rs", into="src/components/archive.rs")],
+    native=[dict(files=["contracts/C07/whole_run_native.rs"],
+                 harnesses={"c07_native_whole_runs": dict(anchor="whole runs of the shipped templates (reported best)",
+                            bound=B + "best reported at the end == minimum value the objective function returned")}),
+            dict(files=[], inject=[dict(file="contracts/C07/c07_archive_native.rs", into="src/components/archive.rs")],
                  harnesses={"c07_native_archive_histories": dict(anchor="ElitistArchive::update (histories)",
                             bound="BOUNDED STAND-IN, native exhaustive enumeration: all 3-update histories with populations of 0..2 individuals, objective values in {1,2,3}, capacities 0..4 (10985 histories)")})],
     min_obligations={"quick": 42, "thorough": 44},
@@ -317,7 +324,10 @@ PROPS["C06"] = dict(
                 expect=["<PopulationEvaluator<I> as Component<P>>::require", "<PopulationEvaluator<I> as Component<P>>::init"])],
     kani=[dict(files=["contracts/C06/c06.rs"], map_shim=True,
                          map_shim_files=["src/state/registry/mod.rs", "src/state/registry/entry.rs", "src/state/registry/multi.rs"])],
-    native=[dict(files=["contracts/C06/c06_native.rs"],
+    native=[dict(files=["contracts/C07/whole_run_native.rs"],
+                 harnesses={"c06_native_whole_runs": dict(anchor="whole runs of the shipped templates (evaluation count)",
+                            bound=B + "reported evaluations == objective-function invocations")}),
+            dict(files=["contracts/C06/c06_native.rs"],
                  harnesses={"c06_native_population_evaluator": dict(anchor="PopulationEvaluator::execute",
                             bound="BOUNDED STAND-IN, native run: population sizes 0..4 x every evaluated/unevaluated mix x {sequential, parallel} x 1..2 steps; missing-evaluator run")})],
     min_obligations={"quick": 4, "thorough": 4},
